@@ -345,6 +345,8 @@ int process_start(pid_t *process,
                                                                  : environ;
   env = strv_concat(parent, options.env.extra);
   if (env == NULL) {
+    // `strv_concat` only fails when it runs out of memory.
+    r = -ENOMEM;
     goto finish;
   }
 
